@@ -32,6 +32,10 @@ name). X8 no exporter leaves an iteration of its entry loop early (continue/brea
 symlink arm of the directory and tar exporters creates the link.
 X9 (third round) the smart Repository.revision_archive handler only decodes `root` (no default substituted on the server side).
 X10 is_special_path (bzr and git trees) recognises special paths by name; a bare startswith(prefix) is reported (bzr: known finding).
+X11 every executable-bit decision inside GitRevisionTree (is_executable's return, entries' .executable, path_content_summary) is a call of
+   mode_is_executable(mode): the exporters read is_executable(), listings read the entry.
+X12 every method the exporters call on `tree` resolves, through ContentFilterTree's MRO, to a definition that does not start by raising
+   NotImplementedError (export --filters wraps the tree in ContentFilterTree).
 Does not decide: that the bytes written equal the tree's contents (values).
 """
 
@@ -158,8 +162,45 @@ def run(ctx):
         else:
             ctx.check("X10-special-by-name", f"{rel_}:{q_}", True, "special paths are recognised by their (first component's) name")
     ctx.require(n_sp == 2, "is_special_path implementations not found (hand-confirmed: InventoryTree, GitTree)")
+    # ---- X12: the filtering wrapper of `export --filters` serves every tree method the exporters call ---------------------
+    FT = "breezy/filter_tree.py"
+    wanted = {}
+    for rel_ in (EX, "breezy/archive/__init__.py", TAR, ZIP):
+        for q_, f_ in repo.module(rel_).functions().items():
+            for c in calls_in(f_):
+                if call_recv(c) == "tree" and call_attr(c):
+                    wanted.setdefault(call_attr(c), f"{rel_}:{q_}")
+    ctx.require(len(wanted) >= 8 and "get_symlink_target" in wanted, f"exporters: calls on `tree` not found ({sorted(wanted)})")
+    _OPTIONAL = {"get_revision_id"}  # called only behind getattr(tree, "_repository"/"get_revision_id", None)
+    for m_, site in sorted(wanted.items()):
+        if m_ in _OPTIONAL:
+            continue
+        r_ = repo.resolve_method(FT, "ContentFilterTree", m_)
+        abstract = True
+        if r_ is not None:
+            body_ = [s_ for s_ in r_[2].body if not (isinstance(s_, ast.Expr) and isinstance(s_.value, ast.Constant))]
+            abstract = bool(body_) and isinstance(body_[0], ast.Raise) and "NotImplementedError" in norm(body_[0])
+        ctx.check("X12-filter-tree-serves-exporters", f"{FT}:ContentFilterTree.{m_}", not abstract, f"tree.{m_}() (called by {site}) resolves on ContentFilterTree to an implementation", construct=f"{r_[0]}:{r_[1]}.{m_}" if r_ else "unresolved", message=f"{site} calls tree.{m_}() but ContentFilterTree (the tree `export --filters` hands to the exporters) only inherits the abstract Tree.{m_}: exporting a tree that needs it raises NotImplementedError — the export option makes the export of such a tree impossible")
+    # ---- X11: one decision function for the executable bit of a git revision tree ------------------------------------------
+    GT = "breezy/git/tree.py"
+    decisions = []
+    for q_, f_ in repo.module(GT).functions().items():
+        if not q_.startswith("GitRevisionTree."):
+            continue
+        for s_ in ast.walk(f_):
+            if isinstance(s_, ast.Return) and q_ == "GitRevisionTree.is_executable" and s_.value is not None and not (isinstance(s_.value, ast.Constant) and s_.value.value is False):
+                decisions.append((q_, s_.value))
+            if isinstance(s_, ast.Assign) and len(s_.targets) == 1 and ((isinstance(s_.targets[0], ast.Attribute) and s_.targets[0].attr == "executable") or (isinstance(s_.targets[0], ast.Name) and s_.targets[0].id.startswith("executable"))) and not isinstance(s_.value, ast.Constant):
+                decisions.append((q_, s_.value))
+    ctx.require(len(decisions) >= 3 and any(q_ == "GitRevisionTree.is_executable" for q_, _ in decisions), f"{GT}: executable-bit decisions of GitRevisionTree not found ({len(decisions)}; hand-confirmed: is_executable, _get_file_ie, path_content_summary)")
+    for q_, e_ in decisions:
+        okx = isinstance(e_, ast.Call) and norm(e_.func).split(".")[-1] == "mode_is_executable" and len(e_.args) == 1
+        ctx.check("X11-git-executable-one-decision", f"{GT}:{q_}", okx, "the executable bit is decided by mode_is_executable(mode) — the same function for is_executable() (read by the exporters) and for the entries' .executable", construct=norm(e_)[:80], message=f"{q_} decides the executable bit with `{norm(e_)[:80]}` while the tree's other views use mode_is_executable(mode): for a blob mode on which the two differ (100775, 100744 — legal in imported history) the exporters, which ask tree.is_executable(), write a file without the x bit that the entry reports as executable")
+
 
 MUTANTS = [
+    Mutant("filter tree no longer forwards symlink targets (fix reverted)", "breezy/filter_tree.py", "    def get_symlink_target(self, path):\n", "    def _get_symlink_target_unused(self, path):\n", expect="X12-filter-tree-serves-exporters"),
+    Mutant("git revision tree: only mode 100755 counts as executable", "breezy/git/tree.py", "            # the tree root is a directory\n            return False\n        return mode_is_executable(mode)\n", "            # the tree root is a directory\n            return False\n        return (mode & 0o777) == 0o755\n", expect="X11-git-executable-one-decision"),
     Mutant("git special paths by bare prefix again (fix reverted)", "breezy/git/tree.py", '        return path.split("/", 1)[0] in (\n            ".git",\n            ".gitignore",\n            ".gitattributes",\n            ".gitmodules",\n        )\n', '        return path.startswith(".git")\n', expect="X10-special-by-name"),
     Mutant("special-path test on the exported name", EX, "        if skip_special and tree.is_special_path(path):\n            continue\n", "        if skip_special and tree.is_special_path(path if not subdir else path[len(subdir) + 1 :]):\n            continue\n", expect="X7-special-path-on-tree-path"),
     Mutant("directory exporter skips symlinks it cannot create", EX, "        elif ie.kind == \"symlink\":\n            try:\n", "        elif ie.kind == \"symlink\":\n            if not osutils.supports_symlinks(dest):\n                yield\n                continue\n            try:\n", expect="X8-no-entry-skipped"),
